@@ -105,17 +105,19 @@ Definition probes_ok (T : ltable) (probes : list (nat * list (Q * Q * Q))) : boo
    (voltage_in, [call + observation]) *)
 Inductive hstep :=
 | HRead (v : Q) (r : option Q)          (* .pressure at v V -> Some float | None (raised, inf, nan) *)
-| HCal (v p : Q) (r : option bool).     (* .calibrate(p) at v V: Some false = returned, Some true =
+| HCal (v p : Q) (r : option bool)      (* .calibrate(p) at v V: Some false = returned, Some true =
                                            raised ZeroDivisionError, None = anything else *)
+| HSet (vcc : Q) (r : bool).            (* .voltage_in = vcc: true = carried out, false = raised *)
 
 Definition hstep_op (h : hstep) : sop :=
-  match h with HRead v _ => OpRead v | HCal v p _ => OpCalibrate v p end.
+  match h with HRead v _ => OpRead v | HCal v p _ => OpCalibrate v p | HSet vcc _ => OpSetSupply vcc end.
 
 Definition hstep_ok (h : hstep) (o : sobs) : bool :=
   match h, o with
   | HRead _ r, ObsRead m => close_out 25 r m
   | HCal _ _ (Some false), ObsCalibrate (Val _) => true
   | HCal _ _ (Some true), ObsCalibrate (Raise ZeroDivisionError) => true
+  | HSet _ true, ObsSet => true
   | _, _ => false
   end.
 
